@@ -13,6 +13,7 @@ A_NOTE = ('Trusted base: CrossHair 0.0.110 + z3 (its models of int/list/str and 
           'oracle in the harness. Counterexamples are re-run concretely without CrossHair before being reported.')
 A_TECH = 'CrossHair symbolic execution (z3) of the real functions over symbolic inputs within `pre:` bounds; reachability twin per condition; concrete replay of counterexamples'
 CHECKS = {
+    'C20': ('B', 'model_checking', 'Whether a record is lost depends on how the child\'s queue feeder, the parent\'s collector, its feeder and its logger thread interleave around the end of the child, and whether the child can exit depends on the pipe filling up: processes are modelled as threads and multiprocessing.Queue by its documented contract (per-process buffer + feeder, shared bounded pipe), the real forwarding code runs on top, and the solver covers every interleaving, ending, record count and level for the listed sizes; counterexamples are confirmed on real processes.', '3 C20'),
     'C13': ('A', 'other', 'Premature destruction or a leak depends on the order of increments and decrements across pickling, rebuilding, nesting and finalizers; every operation skeleton (with symbolic operands) is run on the real reference-counting code over an in-process transport and compared with a reference-count model after every step. MemoryBlock/shared memory and real process exit are outside.', '3 C13'),
     'C14': ('A', 'other', 'Equivalence with a local object over all 2-operation (3 in thorough) sequences of list and dict operations through two proxies, including the failing ones, plus managed() return values, Value and Namespace, on the real dispatch code with real pickling.', '3 C14'),
     'C09': ('B', 'model_checking', 'The real batching threads (collector, consumer, the SingleLane between them, the shared read lock and the batch-get event) run inside a real ThreadServlet; an instrumented call() asserts well-formed batches and records their composition, lone-request service is the progress query; exact release timing is checked by CrossHair units under a virtual clock. Bounds: batch_size 2, <= 2 requests.', '3 C09'),
@@ -39,9 +40,7 @@ CHECKS = {
     'C08': ('B', 'model_checking', 'The look-ahead and concurrency bounds are state invariants asserted on every state of the inductive '
             'invariant, with counters in the symbolic state; an overshoot needs a particular speed ratio, i.e. a schedule.', '3 C08'),
 }
-NA = {
-    'C20': 'the verdict would rest on a stub of multiprocessing.Queue (feeder thread, pipe capacity) rather than on mpservice code; reproduced by hand only (DESIGN.md section 4)',
-}
+NA = {}
 checks = []
 for pid, (eng, cat, text, ref) in CHECKS.items():
     checks.append({
